@@ -6,18 +6,36 @@
 (* must be exactly the chunk sequence the model emitted.  Signals for which     *)
 (* data chunks may be omitted (on request, or constant blocks of types of at    *)
 (* most 8 bits) are driven but not compared.  A deviation is MODEL-DRIFT.       *)
-EXTENDS JlsWriter, SigDef, Json, IOUtils, TLC
+EXTENDS JlsWriter, JlsTsWriter, SigDef, Json, IOUtils, TLC
 
 TraceLog == ndJsonDeserialize(IOEnv.TRACE)
 
-VARIABLES l, G, x, skip, rej
-vars == <<l, G, x, skip, rej>>
+VARIABLES l, G, H, x, skip, rej
+vars == <<l, G, H, x, skip, rej>>
 Ev == TraceLog[l]
 
 \* G: signal id -> [W, next (next expected sample id, relative to base), first, has, cmp, obs]
 NoG == <<>>
 Put(f, k, v) == [y \in DOMAIN f \cup {k} |-> IF y = k THEN v ELSE f[y]]
-Init == l = 1 /\ G = NoG /\ x = 0 /\ skip = FALSE /\ rej = <<>>
+\* H: time-series tracks, key sig * 4 + track type (2 annotation, 3 UTC) -> [T, obs]; signal 0 (global annotations,
+\* decimate factor 100) exists from the start
+H0 == Put(<<>>, 2, [T |-> T0(100), obs |-> <<>>])
+Init == l = 1 /\ G = NoG /\ H = H0 /\ x = 0 /\ skip = FALSE /\ rej = <<>>
+
+OnSignalDefH(ev) ==
+    IF ev.rc # 0 \/ ev.st # 0 \/ ev.bits \notin {1, 4, 8, 16, 32, 64} THEN H
+    ELSE LET p == Normalise(ev.bits, [spd |-> ev.spd, sdf |-> ev.sdf, eps |-> ev.eps, sumdf |-> ev.sumdf, adf |-> ev.adf, udf |-> ev.udf]) IN
+         Put(Put(H, ev.id * 4 + 2, [T |-> T0(p.adf), obs |-> <<>>]), ev.id * 4 + 3, [T |-> T0(p.udf), obs |-> <<>>])
+OnEntry(key, ts, rc) == IF rc # 0 \/ key \notin DOMAIN H THEN H ELSE Put(H, key, [H[key] EXCEPT !.T = Add(@, ts)])
+OnCloseH == [k \in DOMAIN H |-> [H[k] EXCEPT !.T = TsClose(@)]]
+IsTsChunk(ev) == ev.kind = "track" /\ ev.tt \in {2, 3} /\ ev.ck \in {2, 3, 4} /\ (ev.sig * 4 + ev.tt) \in DOMAIN H /\ ev.file = "a"
+OnTsChunk(ev) == LET k == ev.sig * 4 + ev.tt IN
+    Put(H, k, [H[k] EXCEPT !.obs = Append(@, [tag |-> IF ev.ck = 2 THEN "D" ELSE IF ev.ck = 3 THEN "I" ELSE "S", lvl |-> ev.lvl, ts |-> ev.ts,
+                                              n |-> ev.cnt, pairs |-> ev.pairs, off |-> ev.off])])
+TsOrdOf(obs, o) == IF o = 0 THEN 0 ELSE IF \E i \in 1..Len(obs) : obs[i].off = o THEN CHOOSE i \in 1..Len(obs) : obs[i].off = o ELSE -1
+TsObserved(obs) == [i \in 1..Len(obs) |-> [tag |-> obs[i].tag, lvl |-> obs[i].lvl, ts |-> obs[i].ts, n |-> obs[i].n,
+                                            ent |-> IF obs[i].tag = "I" THEN [j \in 1..Len(obs[i].pairs) |-> <<obs[i].pairs[j][1], TsOrdOf(obs, obs[i].pairs[j][2])>>] ELSE <<>>]]
+TsDiffers == { k \in DOMAIN H : H[k].T.closed /\ TsObserved(H[k].obs) # H[k].T.out }
 
 OnSignalDef(ev) ==
     IF ev.rc # 0 \/ ev.st # 0 \/ ev.bits \notin {1, 4, 8, 16, 32, 64} THEN G
@@ -53,18 +71,23 @@ Differs == { s \in DOMAIN G : G[s].cmp /\ G[s].W.closed /\ Observed(G[s].obs) # 
 Step ==
     /\ l <= Len(TraceLog)
     /\ l' = l + 1
-    /\ IF Ev.e = "Reset" THEN G' = NoG /\ x' = Ev.x /\ skip' = FALSE /\ UNCHANGED rej
-       ELSE IF skip THEN UNCHANGED <<G, x, skip, rej>>
-       ELSE IF Ev.e = "SignalDef" THEN G' = OnSignalDef(Ev) /\ UNCHANGED <<x, skip, rej>>
-       ELSE IF Ev.e = "WrFsr" THEN G' = OnWrFsr(Ev) /\ UNCHANGED <<x, skip, rej>>
-       ELSE IF Ev.e = "Omit" THEN G' = OnOmit(Ev) /\ UNCHANGED <<x, skip, rej>>
-       ELSE IF Ev.e = "WClose" THEN G' = OnClose /\ UNCHANGED <<x, skip, rej>>
-       ELSE IF Ev.e = "Chunk" /\ IsFsrChunk(Ev) THEN G' = OnChunk(Ev) /\ UNCHANGED <<x, skip, rej>>
+    /\ IF Ev.e = "Reset" THEN G' = NoG /\ H' = H0 /\ x' = Ev.x /\ skip' = FALSE /\ UNCHANGED rej
+       ELSE IF skip THEN UNCHANGED <<G, H, x, skip, rej>>
+       ELSE IF Ev.e = "SignalDef" THEN G' = OnSignalDef(Ev) /\ H' = OnSignalDefH(Ev) /\ UNCHANGED <<x, skip, rej>>
+       ELSE IF Ev.e = "WrFsr" THEN G' = OnWrFsr(Ev) /\ UNCHANGED <<H, x, skip, rej>>
+       ELSE IF Ev.e = "Omit" THEN G' = OnOmit(Ev) /\ UNCHANGED <<H, x, skip, rej>>
+       ELSE IF Ev.e = "Anno" THEN H' = OnEntry(Ev.sig * 4 + 2, Ev.ts, Ev.rc) /\ UNCHANGED <<G, x, skip, rej>>
+       ELSE IF Ev.e = "Utc" THEN H' = OnEntry(Ev.sig * 4 + 3, Ev.id, Ev.rc) /\ UNCHANGED <<G, x, skip, rej>>
+       ELSE IF Ev.e = "WClose" THEN G' = OnClose /\ H' = OnCloseH /\ UNCHANGED <<x, skip, rej>>
+       ELSE IF Ev.e = "Chunk" /\ IsFsrChunk(Ev) THEN G' = OnChunk(Ev) /\ UNCHANGED <<H, x, skip, rej>>
+       ELSE IF Ev.e = "Chunk" /\ IsTsChunk(Ev) THEN H' = OnTsChunk(Ev) /\ UNCHANGED <<G, x, skip, rej>>
        ELSE IF Ev.e = "FileEnd" /\ Ev.file = "a" THEN
             IF Differs # {} THEN /\ rej' = Append(rej, <<x, l, "the FSR chunk sequence of the file differs from the writer model">>)
-                                 /\ skip' = TRUE /\ UNCHANGED <<G, x>>
-            ELSE UNCHANGED <<G, x, skip, rej>>
-       ELSE UNCHANGED <<G, x, skip, rej>>
+                                 /\ skip' = TRUE /\ UNCHANGED <<G, H, x>>
+            ELSE IF TsDiffers # {} THEN /\ rej' = Append(rej, <<x, l, "the annotation / UTC chunk sequence of the file differs from the writer model">>)
+                                        /\ skip' = TRUE /\ UNCHANGED <<G, H, x>>
+            ELSE UNCHANGED <<G, H, x, skip, rej>>
+       ELSE UNCHANGED <<G, H, x, skip, rej>>
 
 Spec == Init /\ [][Step]_vars
 Done == /\ PrintT(<<"TRACE_RESULT", TLCGet("stats").diameter - 1, Len(TraceLog)>>)
